@@ -252,10 +252,18 @@ func fieldRunners() []runner {
 			fromUint64: f.FromUint64, add: (*k256.BaseFieldElement).Add, mul: (*k256.BaseFieldElement).Mul, neg: (*k256.BaseFieldElement).Neg,
 			val:       func(s *k256.BaseFieldElement) *big.Int { return fromLE(s.V.Bytes()) },
 			fromBytes: f.FromBytes, fromWide: f.FromWideBytes, fromBEReduce: f.FromBytesBEReduce, bytes: (*k256.BaseFieldElement).Bytes,
-			unmarshalBinary: func(b []byte) (*k256.BaseFieldElement, error) { var s k256.BaseFieldElement; err := s.UnmarshalBinary(b); return &s, err },
-			marshalBinary:   (*k256.BaseFieldElement).MarshalBinary,
-			unmarshalCBOR:   func(b []byte) (*k256.BaseFieldElement, error) { var s k256.BaseFieldElement; err := s.UnmarshalCBOR(b); return &s, err },
-			marshalCBOR:     (*k256.BaseFieldElement).MarshalCBOR}))
+			unmarshalBinary: func(b []byte) (*k256.BaseFieldElement, error) {
+				var s k256.BaseFieldElement
+				err := s.UnmarshalBinary(b)
+				return &s, err
+			},
+			marshalBinary: (*k256.BaseFieldElement).MarshalBinary,
+			unmarshalCBOR: func(b []byte) (*k256.BaseFieldElement, error) {
+				var s k256.BaseFieldElement
+				err := s.UnmarshalCBOR(b)
+				return &s, err
+			},
+			marshalCBOR: (*k256.BaseFieldElement).MarshalCBOR}))
 	}
 	{
 		f := p256.NewScalarField()
@@ -274,10 +282,18 @@ func fieldRunners() []runner {
 			fromUint64: f.FromUint64, add: (*p256.BaseFieldElement).Add, mul: (*p256.BaseFieldElement).Mul, neg: (*p256.BaseFieldElement).Neg,
 			val:       func(s *p256.BaseFieldElement) *big.Int { return fromLE(s.V.Bytes()) },
 			fromBytes: f.FromBytes, fromWide: f.FromWideBytes, fromBEReduce: f.FromBytesBEReduce, bytes: (*p256.BaseFieldElement).Bytes,
-			unmarshalBinary: func(b []byte) (*p256.BaseFieldElement, error) { var s p256.BaseFieldElement; err := s.UnmarshalBinary(b); return &s, err },
-			marshalBinary:   (*p256.BaseFieldElement).MarshalBinary,
-			unmarshalCBOR:   func(b []byte) (*p256.BaseFieldElement, error) { var s p256.BaseFieldElement; err := s.UnmarshalCBOR(b); return &s, err },
-			marshalCBOR:     (*p256.BaseFieldElement).MarshalCBOR}))
+			unmarshalBinary: func(b []byte) (*p256.BaseFieldElement, error) {
+				var s p256.BaseFieldElement
+				err := s.UnmarshalBinary(b)
+				return &s, err
+			},
+			marshalBinary: (*p256.BaseFieldElement).MarshalBinary,
+			unmarshalCBOR: func(b []byte) (*p256.BaseFieldElement, error) {
+				var s p256.BaseFieldElement
+				err := s.UnmarshalCBOR(b)
+				return &s, err
+			},
+			marshalCBOR: (*p256.BaseFieldElement).MarshalCBOR}))
 	}
 	{
 		f := edwards25519.NewScalarField()
@@ -285,10 +301,18 @@ func fieldRunners() []runner {
 			fromUint64: f.FromUint64, add: (*edwards25519.Scalar).Add, mul: (*edwards25519.Scalar).Mul, neg: (*edwards25519.Scalar).Neg,
 			val:       func(s *edwards25519.Scalar) *big.Int { return fromLE(s.V.Bytes()) },
 			fromBytes: f.FromBytes, fromWide: f.FromWideBytes, fromBEReduce: f.FromBytesBEReduce, bytes: (*edwards25519.Scalar).Bytes,
-			unmarshalBinary: func(b []byte) (*edwards25519.Scalar, error) { var s edwards25519.Scalar; err := s.UnmarshalBinary(b); return &s, err },
-			marshalBinary:   (*edwards25519.Scalar).MarshalBinary,
-			unmarshalCBOR:   func(b []byte) (*edwards25519.Scalar, error) { var s edwards25519.Scalar; err := s.UnmarshalCBOR(b); return &s, err },
-			marshalCBOR:     (*edwards25519.Scalar).MarshalCBOR}))
+			unmarshalBinary: func(b []byte) (*edwards25519.Scalar, error) {
+				var s edwards25519.Scalar
+				err := s.UnmarshalBinary(b)
+				return &s, err
+			},
+			marshalBinary: (*edwards25519.Scalar).MarshalBinary,
+			unmarshalCBOR: func(b []byte) (*edwards25519.Scalar, error) {
+				var s edwards25519.Scalar
+				err := s.UnmarshalCBOR(b)
+				return &s, err
+			},
+			marshalCBOR: (*edwards25519.Scalar).MarshalCBOR}))
 	}
 	{
 		f := edwards25519.NewBaseField()
@@ -296,10 +320,18 @@ func fieldRunners() []runner {
 			fromUint64: f.FromUint64, add: (*edwards25519.BaseFieldElement).Add, mul: (*edwards25519.BaseFieldElement).Mul, neg: (*edwards25519.BaseFieldElement).Neg,
 			val:       func(s *edwards25519.BaseFieldElement) *big.Int { return fromLE(s.V.Bytes()) },
 			fromBytes: f.FromBytes, fromWide: f.FromWideBytes, fromBEReduce: f.FromBytesBEReduce, bytes: (*edwards25519.BaseFieldElement).Bytes,
-			unmarshalBinary: func(b []byte) (*edwards25519.BaseFieldElement, error) { var s edwards25519.BaseFieldElement; err := s.UnmarshalBinary(b); return &s, err },
-			marshalBinary:   (*edwards25519.BaseFieldElement).MarshalBinary,
-			unmarshalCBOR:   func(b []byte) (*edwards25519.BaseFieldElement, error) { var s edwards25519.BaseFieldElement; err := s.UnmarshalCBOR(b); return &s, err },
-			marshalCBOR:     (*edwards25519.BaseFieldElement).MarshalCBOR}))
+			unmarshalBinary: func(b []byte) (*edwards25519.BaseFieldElement, error) {
+				var s edwards25519.BaseFieldElement
+				err := s.UnmarshalBinary(b)
+				return &s, err
+			},
+			marshalBinary: (*edwards25519.BaseFieldElement).MarshalBinary,
+			unmarshalCBOR: func(b []byte) (*edwards25519.BaseFieldElement, error) {
+				var s edwards25519.BaseFieldElement
+				err := s.UnmarshalCBOR(b)
+				return &s, err
+			},
+			marshalCBOR: (*edwards25519.BaseFieldElement).MarshalCBOR}))
 	}
 	{
 		f := pasta.NewPallasBaseField() // = Vesta scalar field
@@ -307,10 +339,18 @@ func fieldRunners() []runner {
 			fromUint64: f.FromUint64, add: (*pasta.FpFieldElement).Add, mul: (*pasta.FpFieldElement).Mul, neg: (*pasta.FpFieldElement).Neg,
 			val:       func(s *pasta.FpFieldElement) *big.Int { return fromLE(s.V.Bytes()) },
 			fromBytes: f.FromBytes, fromWide: f.FromWideBytes, fromBEReduce: f.FromBytesBEReduce, bytes: (*pasta.FpFieldElement).Bytes,
-			unmarshalBinary: func(b []byte) (*pasta.FpFieldElement, error) { var s pasta.FpFieldElement; err := s.UnmarshalBinary(b); return &s, err },
-			marshalBinary:   (*pasta.FpFieldElement).MarshalBinary,
-			unmarshalCBOR:   func(b []byte) (*pasta.FpFieldElement, error) { var s pasta.FpFieldElement; err := s.UnmarshalCBOR(b); return &s, err },
-			marshalCBOR:     (*pasta.FpFieldElement).MarshalCBOR}))
+			unmarshalBinary: func(b []byte) (*pasta.FpFieldElement, error) {
+				var s pasta.FpFieldElement
+				err := s.UnmarshalBinary(b)
+				return &s, err
+			},
+			marshalBinary: (*pasta.FpFieldElement).MarshalBinary,
+			unmarshalCBOR: func(b []byte) (*pasta.FpFieldElement, error) {
+				var s pasta.FpFieldElement
+				err := s.UnmarshalCBOR(b)
+				return &s, err
+			},
+			marshalCBOR: (*pasta.FpFieldElement).MarshalCBOR}))
 	}
 	{
 		f := pasta.NewVestaBaseField() // = Pallas scalar field
@@ -318,10 +358,18 @@ func fieldRunners() []runner {
 			fromUint64: f.FromUint64, add: (*pasta.FqFieldElement).Add, mul: (*pasta.FqFieldElement).Mul, neg: (*pasta.FqFieldElement).Neg,
 			val:       func(s *pasta.FqFieldElement) *big.Int { return fromLE(s.V.Bytes()) },
 			fromBytes: f.FromBytes, fromWide: f.FromWideBytes, fromBEReduce: f.FromBytesBEReduce, bytes: (*pasta.FqFieldElement).Bytes,
-			unmarshalBinary: func(b []byte) (*pasta.FqFieldElement, error) { var s pasta.FqFieldElement; err := s.UnmarshalBinary(b); return &s, err },
-			marshalBinary:   (*pasta.FqFieldElement).MarshalBinary,
-			unmarshalCBOR:   func(b []byte) (*pasta.FqFieldElement, error) { var s pasta.FqFieldElement; err := s.UnmarshalCBOR(b); return &s, err },
-			marshalCBOR:     (*pasta.FqFieldElement).MarshalCBOR}))
+			unmarshalBinary: func(b []byte) (*pasta.FqFieldElement, error) {
+				var s pasta.FqFieldElement
+				err := s.UnmarshalBinary(b)
+				return &s, err
+			},
+			marshalBinary: (*pasta.FqFieldElement).MarshalBinary,
+			unmarshalCBOR: func(b []byte) (*pasta.FqFieldElement, error) {
+				var s pasta.FqFieldElement
+				err := s.UnmarshalCBOR(b)
+				return &s, err
+			},
+			marshalCBOR: (*pasta.FqFieldElement).MarshalCBOR}))
 	}
 	{
 		f := bls12381.NewScalarField()
@@ -329,10 +377,18 @@ func fieldRunners() []runner {
 			fromUint64: f.FromUint64, add: (*bls12381.Scalar).Add, mul: (*bls12381.Scalar).Mul, neg: (*bls12381.Scalar).Neg,
 			val:       func(s *bls12381.Scalar) *big.Int { return fromLE(s.V.Bytes()) },
 			fromBytes: f.FromBytes, fromWide: f.FromWideBytes, fromBEReduce: f.FromBytesBEReduce, bytes: (*bls12381.Scalar).Bytes,
-			unmarshalBinary: func(b []byte) (*bls12381.Scalar, error) { var s bls12381.Scalar; err := s.UnmarshalBinary(b); return &s, err },
-			marshalBinary:   (*bls12381.Scalar).MarshalBinary,
-			unmarshalCBOR:   func(b []byte) (*bls12381.Scalar, error) { var s bls12381.Scalar; err := s.UnmarshalCBOR(b); return &s, err },
-			marshalCBOR:     (*bls12381.Scalar).MarshalCBOR}))
+			unmarshalBinary: func(b []byte) (*bls12381.Scalar, error) {
+				var s bls12381.Scalar
+				err := s.UnmarshalBinary(b)
+				return &s, err
+			},
+			marshalBinary: (*bls12381.Scalar).MarshalBinary,
+			unmarshalCBOR: func(b []byte) (*bls12381.Scalar, error) {
+				var s bls12381.Scalar
+				err := s.UnmarshalCBOR(b)
+				return &s, err
+			},
+			marshalCBOR: (*bls12381.Scalar).MarshalCBOR}))
 	}
 	{
 		f := bls12381.NewG1BaseField()
@@ -340,10 +396,18 @@ func fieldRunners() []runner {
 			fromUint64: f.FromUint64, add: (*bls12381.BaseFieldElementG1).Add, mul: (*bls12381.BaseFieldElementG1).Mul, neg: (*bls12381.BaseFieldElementG1).Neg,
 			val:       func(s *bls12381.BaseFieldElementG1) *big.Int { return fromLE(s.V.Bytes()) },
 			fromBytes: f.FromBytes, fromWide: f.FromWideBytes, fromBEReduce: f.FromBytesBEReduce, bytes: (*bls12381.BaseFieldElementG1).Bytes,
-			unmarshalBinary: func(b []byte) (*bls12381.BaseFieldElementG1, error) { var s bls12381.BaseFieldElementG1; err := s.UnmarshalBinary(b); return &s, err },
-			marshalBinary:   (*bls12381.BaseFieldElementG1).MarshalBinary,
-			unmarshalCBOR:   func(b []byte) (*bls12381.BaseFieldElementG1, error) { var s bls12381.BaseFieldElementG1; err := s.UnmarshalCBOR(b); return &s, err },
-			marshalCBOR:     (*bls12381.BaseFieldElementG1).MarshalCBOR}))
+			unmarshalBinary: func(b []byte) (*bls12381.BaseFieldElementG1, error) {
+				var s bls12381.BaseFieldElementG1
+				err := s.UnmarshalBinary(b)
+				return &s, err
+			},
+			marshalBinary: (*bls12381.BaseFieldElementG1).MarshalBinary,
+			unmarshalCBOR: func(b []byte) (*bls12381.BaseFieldElementG1, error) {
+				var s bls12381.BaseFieldElementG1
+				err := s.UnmarshalCBOR(b)
+				return &s, err
+			},
+			marshalCBOR: (*bls12381.BaseFieldElementG1).MarshalCBOR}))
 	}
 	out = append(out, g2BaseRunner(), gtRunner())
 	return out
@@ -365,7 +429,7 @@ func g2BaseRunner() runner {
 			return &e
 		}
 		type gd struct {
-			api, rule string
+			api, rule   string
 			le, hiFirst bool
 			dec         func([]byte) (*bls12381.BaseFieldElementG2, error)
 			enc         func(*bls12381.BaseFieldElementG2) ([]byte, error)
@@ -374,10 +438,18 @@ func g2BaseRunner() runner {
 		decs := []gd{
 			{api: "FromBytes", rule: "fbe", dec: bf.FromBytes, enc: func(e *bls12381.BaseFieldElementG2) ([]byte, error) { return e.Bytes(), nil }},
 			{api: "UnmarshalBinary", rule: "fle", le: true, hiFirst: true,
-				dec: func(b []byte) (*bls12381.BaseFieldElementG2, error) { var e bls12381.BaseFieldElementG2; err := e.UnmarshalBinary(b); return &e, err },
+				dec: func(b []byte) (*bls12381.BaseFieldElementG2, error) {
+					var e bls12381.BaseFieldElementG2
+					err := e.UnmarshalBinary(b)
+					return &e, err
+				},
 				enc: (*bls12381.BaseFieldElementG2).MarshalBinary},
 			{api: "UnmarshalCBOR", rule: "fbe",
-				dec: func(b []byte) (*bls12381.BaseFieldElementG2, error) { var e bls12381.BaseFieldElementG2; err := e.UnmarshalCBOR(b); return &e, err },
+				dec: func(b []byte) (*bls12381.BaseFieldElementG2, error) {
+					var e bls12381.BaseFieldElementG2
+					err := e.UnmarshalCBOR(b)
+					return &e, err
+				},
 				enc: (*bls12381.BaseFieldElementG2).MarshalCBOR, wrap: cborWrap("fieldBytes"), unw: cborUnwrap("fieldBytes")},
 		}
 		encx := func(d gd, v fe) []byte {
@@ -557,7 +629,11 @@ func gtRunner() runner {
 		}
 		decs := []gd{
 			{"FromBytes", gt.FromBytes, func(e *bls12381.GtElement) ([]byte, error) { return e.Bytes(), nil }},
-			{"UnmarshalBinary", func(b []byte) (*bls12381.GtElement, error) { var e bls12381.GtElement; err := e.UnmarshalBinary(b); return &e, err },
+			{"UnmarshalBinary", func(b []byte) (*bls12381.GtElement, error) {
+				var e bls12381.GtElement
+				err := e.UnmarshalBinary(b)
+				return &e, err
+			},
 				(*bls12381.GtElement).MarshalBinary},
 		}
 		for _, d := range decs {
